@@ -25,6 +25,14 @@ import Tmcg.Model.Powm
   state × inbox → state × inbox × outputs; the round glue (`runRounds`) only moves messages,
   applies the deviation filters and never looks into a party's state.
 
+  What a party reads from sender `j` is a function of `j`'s queue alone: every reader is a function
+  `parse… : queue → result × rest of the queue` (`parseElems`, `parseShare`, `parseCompl`,
+  `parseAns`, `parseOpen`, `parseRec`), and a step applies it to the queue of every sender it
+  listens to.  (In the library the loops over the senders run one after the other; as an iteration
+  only touches the queue of its own sender, the result is the same.)  Lists of accused parties are
+  kept as the library keeps them up to order and repetition, which never matter: they are sorted and
+  made unique before they are broadcast, and otherwise only membership is asked.
+
   The arithmetic is the library's: `tmcg_mpz_fspowm` / `tmcg_mpz_fpowm` on the tables built by the
   constructor, `mpz_powm`, reductions mod q after every multiplication and addition, the order of
   the checks, which of them are complaints, which complaints disqualify.
